@@ -171,6 +171,15 @@ func DebugHist(args []string) {
 		println(r.w.lastDump)
 	}
 	println("key", r.key, "outcome", r.outcome)
+	if r.w.stopRequested {
+		for i := 0; i < 60 && !(r.w.runDone && r.w.stopReturned); i++ {
+			r.w.Tick(100 * time.Millisecond)
+			r.w.answerRound()
+		}
+		println("STOP requested at", r.w.stopAt/1e6, "runDone", r.w.runDone, "stopReturned", r.w.stopReturned, "live:", liveThreads(r.w), "points", r.w.plan.Total)
+	} else if r.w.plan != nil {
+		println("points", r.w.plan.Total)
+	}
 	for _, v := range r.w.viol {
 		println("VIOL", v.Property, v.Clause, "|", v.Class, "|", v.Detail)
 	}
@@ -217,6 +226,15 @@ func DebugHistScenario(name string, idx int, args []string) {
 		println(l)
 	}
 	println("key", r.key, "outcome", r.outcome)
+	if r.w.stopRequested {
+		for i := 0; i < 60 && !(r.w.runDone && r.w.stopReturned); i++ {
+			r.w.Tick(100 * time.Millisecond)
+			r.w.answerRound()
+		}
+		println("STOP requested at", r.w.stopAt/1e6, "runDone", r.w.runDone, "stopReturned", r.w.stopReturned, "live:", liveThreads(r.w), "points", r.w.plan.Total)
+	} else if r.w.plan != nil {
+		println("points", r.w.plan.Total)
+	}
 	for _, v := range r.w.viol {
 		println("VIOL", v.Property, v.Clause, "|", v.Class, "|", v.Detail)
 	}
@@ -229,6 +247,7 @@ func init() {
 	debugScenarios["C14"] = c14Scenarios
 	debugScenarios["C05"] = c05NodeScenarios
 	debugScenarios["C11"] = c11Scenarios
+	debugScenarios["C03"] = c03Scenarios
 	debugScenarios["C12"] = c12Scenarios
 }
 
